@@ -29,6 +29,9 @@ func PartialHelper(name string, data map[string]interface{}, help HelperContext)
 	default:
 		return "", fmt.Errorf("could not found partial feeder from helpers")
 	}
+	if pf == nil {
+		return "", fmt.Errorf("the partial feeder is a nil function")
+	}
 
 	var part string
 	var err error
